@@ -382,7 +382,8 @@ struct ThreadCase
   int nobjects = 1;
   std::vector<std::vector<Op>> programs;  // one per thread
   int creatorDropAfter = 0;               // main drops its references after this many yields
-  auto tie() { return std::tie(nobjects, programs, creatorDropAfter); }
+  int reps = 1;                           // every thread runs its program this many times
+  auto tie() { return std::tie(nobjects, programs, creatorDropAfter, reps); }
 };
 
 static void thread_case(const ThreadCase &c, pbt::Ctx &ctx)
@@ -402,12 +403,18 @@ static void thread_case(const ThreadCase &c, pbt::Ctx &ctx)
     for (int i = 0; i < nobj; ++i)
       initial[t].emplace_back(objs[(size_t)i]);
   std::atomic<int> errors{0};
+  std::atomic<int> gate{0};  // start together (synchronisation before the concurrent phase only)
+  const int reps = 1 + ((c.reps % 40) + 40) % 40;
   std::vector<std::thread> th;
   for (size_t t = 0; t < nthreads; ++t)
     th.emplace_back([&, t] {
       // the thread owns `mine`; it only ever touches its own handles (the documented usage)
       std::vector<BP> mine = std::move(initial[t]);
       BP extra[3];
+      gate++;
+      while (gate.load() < (int)nthreads + 1)
+        std::this_thread::yield();
+      for (int rep = 0; rep < reps; ++rep)
       for (const Op &op : c.programs[t]) {
         size_t i = (size_t)op.a % mine.size();
         int e = (int)(op.b % 3);
@@ -439,11 +446,12 @@ static void thread_case(const ThreadCase &c, pbt::Ctx &ctx)
           extra[e] = mine[i].ptr;  // assign from raw while holding a reference
           break;
         }
-        if (op.c % 3 == 0)
+        if (op.c % 5 == 0 && rep % 8 == 0)
           std::this_thread::yield();
       }
       // handles die with the thread
     });
+  gate++;
   for (int i = 0; i < c.creatorDropAfter % 50; ++i)
     std::this_thread::yield();
   for (auto *o : objs)
@@ -468,7 +476,7 @@ static void register_properties()
   auto prog = pbt::vec(pbt::genOp(6, 5, 5, 5), 60);
   auto progs = gen::mapcat(pbt::range<int>(1, 8), [prog](int n) { return gen::container<std::vector<std::vector<Op>>>((size_t)n, prog); });
   pbt::property<ThreadCase>("threads", 300,
-      gen::build<ThreadCase>(gen::set(&ThreadCase::nobjects, pbt::range<int>(0, 2)), gen::set(&ThreadCase::programs, progs), gen::set(&ThreadCase::creatorDropAfter, pbt::range<int>(0, 49))),
+      gen::build<ThreadCase>(gen::set(&ThreadCase::nobjects, pbt::range<int>(0, 2)), gen::set(&ThreadCase::programs, progs), gen::set(&ThreadCase::creatorDropAfter, pbt::range<int>(0, 49)), gen::set(&ThreadCase::reps, pbt::range<int>(0, 39))),
       thread_case);
 }
 #ifndef C08_BIN
